@@ -54,13 +54,15 @@ class VersionConverter(object):
         return tree
 
     def _parse_json(self):
-        with open(self.filename) as file:
+        # JSON and YAML files are UTF-8 (the odML writers only use its ASCII
+        # subset): do not depend on the locale's encoding.
+        with open(self.filename, encoding="utf-8") as file:
             parsed_doc = json.load(file)
 
         return self._parse_dict_document(parsed_doc)
 
     def _parse_yaml(self):
-        with open(self.filename) as file:
+        with open(self.filename, encoding="utf-8") as file:
             parsed_doc = yaml.safe_load(file)
 
         return self._parse_dict_document(parsed_doc)
